@@ -1,6 +1,7 @@
 import AlgopyVerif.Proofs.Tape
 import AlgopyVerif.Proofs.LineDeriv
 import AlgopyVerif.Proofs.Jet
+import AlgopyVerif.Proofs.TapeNatural
 /-!
 # C04 — graph derivative drivers return the derivatives at the requested point
 
@@ -49,6 +50,37 @@ theorem gradient_spec (n out : Nat) (hout : out < n) (tape : List (Instr A)) (h 
 /-- `vec_jac(w, x)`: any weight vector on the outputs -/
 theorem vec_jac_spec (n : Nat) (tape : List (Instr A)) (h dh w : Heap A) (hw : WF n tape h dh) :
     pair n (rev tape h w) dh = pair n w (tan tape h dh) := tape_adjoint n tape h dh w hw
+
+/-! ## `jacobian(x)` with a Taylor-polynomial argument: the `(D, M·P)` replicated layout
+
+`CGraph.jacobian` (tracer.py:335-347) evaluates the program on `M·P` directions, direction `q = p·M + m` holding the input of
+direction `p = q / M`, and seeds output component `m = q % M` of direction `q` with 1.  Over the ring `Fin (M·P) → S`
+(`S = ℝ[t]/(t^D)`): direction `q` of the adjoints of this one sweep is the adjoint of the sweep of input direction `q / M` alone
+seeded with the output cell `q % M` — i.e. (by `gradient_spec`) row `q % M` of the Jacobian along the curve of direction `q / M`. -/
+section jac
+variable {S : Type} [CommRing S]
+
+/-- the replicated input heap: direction `q` holds direction `q / M` of `x` -/
+def repHeap (M P : Nat) (x : Heap (Fin P → S)) (hP : 0 < P) : Heap (Fin (P * M) → S) :=
+  fun i q => x i ⟨q.val / M % P, Nat.mod_lt _ hP⟩
+
+/-- the seed: output cell `outs m` is seeded with 1 in the directions `q` with `q % M = m` -/
+def repSeed (M P : Nat) (outs : Nat → Nat) : Heap (Fin (P * M) → S) :=
+  fun c q => if c = outs (q.val % M) then 1 else 0
+
+theorem jacobian_replicated_layout (M P : Nat) (hP : 0 < P) (outs : Nat → Nat) (x : Heap (Fin P → S))
+    (t : List (Instr (Fin (P * M) → S))) (t' : List (Instr S)) (q : Fin (P * M))
+    (hc : List.Forall₂ (Instr.Compat (fun y : Fin (P * M) → S => y q)) t t') (c : Nat) :
+    (rev t (repHeap M P x hP) (repSeed M P outs) c) q
+      = rev t' (fun i => x i ⟨q.val / M % P, Nat.mod_lt _ hP⟩) (fun i => if i = outs (q.val % M) then 1 else 0) c :=
+  congrFun (rev_natural (fun y : Fin (P * M) → S => y q) (fun _ _ => rfl) rfl t t' hc _ _) c
+
+/-- for `q = p·M + m` with `m < M` the direction is `p` and the seeded output is `m` -/
+theorem replicated_index (M p m : Nat) (hm : m < M) : (p * M + m) / M = p ∧ (p * M + m) % M = m := by
+  constructor
+  · rw [Nat.add_comm, Nat.add_mul_div_right _ _ (Nat.lt_of_le_of_lt (Nat.zero_le m) hm), Nat.div_eq_of_lt hm, Nat.zero_add]
+  · rw [Nat.add_comm, Nat.add_mul_mod_self_right, Nat.mod_eq_of_lt hm]
+end jac
 
 /-! ## second-order drivers: the order-1 coefficient of the gradient along `x + t v` -/
 section second
